@@ -81,6 +81,41 @@ def history_model(rng, k, tier):
     return ops, ending
 
 
+ENUM_VARIANTS = [("gd", 1, 0, "cvxpy", []), ("gd", 1, 1, "cvxpy", ["lmi_sym"]), ("pgd", 1, 1, "cvxpy", ["lmi_func"]),
+                 ("bcd", 1, 0, "cvxpy", []), ("gd_qg", 1, 0, "mosek", []), ("linear", 1, 2, "mosek", ["part_cons"]),
+                 ("gd", 2, 0, "cvxpy", ["extra_metric"]), ("operator", 1, 1, "mosek", ["eq_cons"])]
+_ENUM_CACHE = {}
+
+
+def enum_history(variant):
+    """A fixed small earlier model whose solve will be interrupted at an enumerated line event."""
+    import random as _random
+    tpl, n, verbose, transport, deco = ENUM_VARIANTS[variant]
+    rng = _random.Random(1000 + variant)
+    b = templates.build_model(rng, prefix="h0_", template=tpl, n=n, decorations=list(deco), names=False)
+    s = {"op": "solve", "P": b.P, "out": "h0_tau", "cfg": {"wrapper": transport, "mode": "dual", "verbose": verbose,
+                                                          "kwargs": {}},
+         "peer": {"mode": "tagged", "tagseed": 77 + variant},
+         "env": {"mosek": "present"} if transport == "mosek" else {"mosek": "absent"}}
+    return list(b.ops), s
+
+
+def enum_total(variant):
+    """Number of PEPit line events of the variant's solve (measured once per process in a counting leg)."""
+    if variant not in _ENUM_CACHE:
+        from sim import runner
+        ops, s = enum_history(variant)
+        s = dict(s)
+        s["count_lines"] = True
+        r = runner.run_leg_forked({"ops": ops + [s], "opts": {}})
+        n = None
+        for o in r.get("outcomes") or []:
+            if o.get("line_events"):
+                n = o["line_events"]
+        _ENUM_CACHE[variant] = n or 1
+    return _ENUM_CACHE[variant]
+
+
 class C12(Prop):
     id = "C12"
     level = "exploration"
@@ -104,6 +139,16 @@ class C12(Prop):
     def generate(self, rng, tier, idx):
         k = rng.choice([1, 1, 2, 2, 3, 4, 6])
         hist, endings = [], []
+        if idx % (4 if tier == "thorough" else 6) == 1:
+            # crash point drawn uniformly over *all* line events of a fixed small solve (count measured first)
+            variant = (idx // 6) % len(ENUM_VARIANTS)
+            total = enum_total(variant)
+            at = 1 + rng.randrange(total)
+            ops, s = enum_history(variant)
+            s["faults"] = {"interrupt": {"at": at}}
+            hist = ops + [s]
+            endings = ["enum:v%d:%d/%d" % (variant, at, total)]
+            k = 0
         for i in range(k):
             ops, e = history_model(rng, i, tier)
             hist += ops
